@@ -7,9 +7,10 @@
    (atlas, type, value / tokens) and carry nothing from call to call — what the
    real instances carry (machine stack, slab rows) is what the history suite
    compares against fresh instances and the model.
-   Framing: statements are added when TranscodeProof.v lands. *)
+   Framing: TranscodeProof.v (dec_many / jdec_many: k successive calls of a
+   long-lived decoder over one stream). *)
 From Coq Require Import List ZArith.
-Require Import Tok CborEnc CborDec JsonEnc JsonDec GoVal Marshal Unmarshal Reuse.
+Require Import Tok CborSpec CborEnc CborDec CborRoundtrip JsonEnc JsonDec GoVal Marshal Unmarshal Reuse JsonNumProof JsonEncProof TranscodeProof.
 Import ListNotations.
 Open Scope Z_scope.
 
@@ -29,11 +30,44 @@ Example C17_after_failed_call :
   enc_call s [Tok (Int 1) None] = enc_tokens [Tok (Int 1) None].
 Proof. reflexivity. Qed.
 
-(* two items back to back are read one per call, each call consuming only its own item *)
+(* Items written back to back into one stream are read back one per call, in order, each call
+   consuming only its own item.  CBOR: any documents that each decode as exactly one item ... *)
+Theorem C17_cbor_items_frame : forall c (docs : list (bytes * list token)) tail,
+  Forall (fun d => exists a, dec_run c (fst d) = DOk (snd d) [] a) docs ->
+  dec_many (length docs) c (concat (map fst docs) ++ tail) = Some (map snd docs, tail).
+Proof. exact dec_many_concat. Qed.
+(* ... in particular the encoder's own outputs *)
+Theorem C17_cbor_encoded_items_frame : forall c items tail,
+  Forall (fun n => enc_ok n /\ len_ok n /\ rt_ok n) items ->
+  Forall (fun n => exists chunks, enc_tokens (flatten n) = Finished chunks (length (flatten n)) /\
+                                  concat chunks = rfc_enc n) items /\
+  dec_many (length items) c (concat (map rfc_enc items) ++ tail) =
+    Some (map (fun n => map canon_tok (flatten n)) items, tail).
+Proof. exact dec_many_encoded. Qed.
+Print Assumptions C17_cbor_encoded_items_frame.
+
+(* a call consumes only its own item: appending input does not change what it returns *)
+Theorem C17_cbor_call_consumes_own_item : forall c bs toks rest a ext,
+  dec_run c bs = DOk toks rest a -> exists a', dec_run c (bs ++ ext) = DOk toks (rest ++ ext) a'.
+Proof. exact dec_run_frame. Qed.
+
+(* JSON: values are self-delimiting or separated by whitespace; only a bare top-level number that ends the
+   input needs a terminator before the next item ("1" followed by "2" is 12) *)
+Theorem C17_json_call_consumes_own_item : forall bs toks rest ext,
+  jdec_run bs = JDOk toks rest ->
+  (rest = [] -> bare_number toks -> JsonNumProof.terminator_ok ext) ->
+  jdec_run (bs ++ ext) = JDOk toks (rest ++ ext).
+Proof. exact jdec_run_frame. Qed.
+Theorem C17_json_items_frame : forall docs tail w0,
+  jstream_ok docs tail -> ws_bytes w0 ->
+  jdec_many (length docs) (w0 ++ concat (map jd_text docs) ++ tail) = Some (map jd_toks docs, jrem w0 docs tail).
+Proof. exact jdec_many_concat. Qed.
+Print Assumptions C17_json_items_frame.
+
 Example C17_cbor_sequence :
   dec_many 3 false [1; 130; 1; 2; 97; 120; 255] =
-  ([[Tok (Uint 1) None]; [Tok (ArrOpen 2) None; Tok (Uint 1) None; Tok (Uint 2) None; Tok ArrClose None]; [Tok (Str [120]) None]], [255]).
+  Some ([[Tok (Uint 1) None]; [Tok (ArrOpen 2) None; Tok (Uint 1) None; Tok (Uint 2) None; Tok ArrClose None]; [Tok (Str [120]) None]], [255]).
 Proof. vm_compute. reflexivity. Qed.
 Example C17_json_sequence :
-  jdec_many 2 [49; 50; 32; 91; 93; 123] = ([[Tok (Int 12) None]; [Tok (ArrOpen (-1)) None; Tok ArrClose None]], [123]).
+  jdec_many 2 [49; 50; 32; 91; 93; 123] = Some ([[Tok (Int 12) None]; [Tok (ArrOpen (-1)) None; Tok ArrClose None]], [123]).
 Proof. vm_compute. reflexivity. Qed.
